@@ -339,6 +339,18 @@ theorem signature_binds_core (hH : ∀ a b, H a = H b → a = b)
   rw [hsq] at hv2; injection hv2 with e; injection e with e1 e2; subst e1; subst e2
   exact verifyPlay_digest_binds H hH p q tp tq sig sig hsp hsq (hsig _ _ _ hval1 hval2)
 
+/-- verdicts do not depend on what was verified before or after in the same process: the answer to a call
+anywhere in a history is the answer the same call gets on its own (the model is a pure function of play,
+signature, revocation document and key; the weight of this clause is on the correspondence, which runs
+histories in one process against a fresh process per call) -/
+theorem verify_history_independent (pre post : List Call) (c : Call) :
+    (runHistory H sigDecodes sigValid hashOf (pre ++ c :: post))[pre.length]? =
+      some (verify H sigDecodes sigValid hashOf c.rplay c.play) ∧
+    runHistory H sigDecodes sigValid hashOf [c] = [verify H sigDecodes sigValid hashOf c.rplay c.play] := by
+  constructor
+  · simp [runHistory]
+  · rfl
+
 end
 
 /-! ### non-vacuity: concrete plays go through exclusion and the presence checks -/
